@@ -8,6 +8,8 @@ R13.2  close establishes a closed state: every value handed to close/closedir/fr
 R13.3  closed descriptors are inert: every descriptor-taking entry point (both ABI generations), partially
        evaluated with the lookup yielding CLOSED (and, separately, an index never issued), performs no native
        call and no string/free operation on a descriptor field and returns EBADF on every path
+R13.6  call sequences: every insert/close sequence of up to 4 (thorough 5) steps on a concrete table keeps each descriptor number
+       unambiguous (fresh on insertion, unchanged while live, not found after close)
 R13.4  single access path: only the table helpers touch wasi.fds
 R13.5  prestat: both calls report the stored path of a slot whose path is non-NULL and EBADF otherwise
 """
@@ -155,6 +157,102 @@ def check_insertion(chk, tu):
         chk.expect(got == want and all(d['path'] == 0 for d in t[:3]), 'R13.1', 'stdio-first',
                    'after wasiInit descriptors 0-2 hold native descriptors %r (paths %r), expected the standard streams %r'
                    % (got, [d['path'] for d in t[:3]], want), 'wasiInit')
+
+
+def check_descriptor_sequences(chk, tu):
+    """R13.6: the descriptor table under call sequences - every sequence of up to 4 (thorough: 5) insert / close operations on a table
+    that starts with the standard streams, a preopen and one open file is evaluated with the real table helpers on a concrete table,
+    and after every step the invariants of the property are tested through the lookup helper: a number returned by an insertion was
+    not live, it now denotes exactly the inserted native descriptor, every other live number still denotes what it denoted, a closed
+    number is not found (until an insertion returns it again), closing a number that is not live fails and changes nothing"""
+    import itertools
+    maxlen = 5 if chk.tier == 'thorough' else 4
+    ret0 = lambda i, a, n: 0
+    leafs = {'close': ret0, 'closedir': ret0}
+
+    import copy
+
+    def call(table, fname, args):
+        # each explored path starts from its own copy of the table; the table after the call is the one of the chosen path (the
+        # successful one when an allocation inside the helper may also fail)
+        paths = [p for p in W.explore_entry(tu, fname, lambda it, st: list(args), lambda: copy.deepcopy(table), extra_leafs=leafs) if not p.aborted]
+        good = [p for p in paths if p.ret == 1]
+        pick = good if good else paths
+        if len(pick) != 1 and not (pick and all(p.ret == pick[0].ret for p in pick)):
+            raise AnalysisBroken('%s%r on a concrete table: %d paths, %d successful' % (fname, tuple(args), len(paths), len(good)))
+        p = pick[0]
+        if p.ret == 1:
+            table[:] = p.state['table']
+        return p
+
+    def lookup(table, n):
+        res = {'v': {'fd': 'unset', 'dir': 'unset', 'path': 'unset'}}
+        p = call(table, 'wasiFileDescriptorGet', [n, Ptr(res, 'v')])
+        return res['v']['fd'] if p.ret == 1 else None
+    # operations: ('add',) | ('close', k): k indexes the list of numbers known so far (0-2 streams, 3 preopen, 4 file, then issued ones)
+    n_seq = 0
+    bad = None
+    for ln in range(1, maxlen + 1):
+        for seq in itertools.product(['add', 0, 3, 4, 5, 6, 9] if chk.tier == 'thorough' else ['add', 0, 4, 5, 9], repeat=ln):
+            if seq[0] == 5 or seq[0] == 6 or (ln > 1 and 'add' not in seq):
+                continue
+            table = std_table(1)
+            live = {0: 0, 1: 1, 2: 2, 3: 'preopen', 4: 10}       # number -> native fd (the preopen has none: looked up by path)
+            next_native = 50
+            n_seq += 1
+            for step, op in enumerate(seq):
+                what = None
+                if op == 'add':
+                    res = {'v': unk('out')}
+                    try:
+                        p = call(table, 'wasiFileDescriptorAdd', [next_native, '/preopen/n%d' % next_native, Ptr(res, 'v')])
+                    except AnalysisBroken as e:
+                        raise
+                    if p.ret == 1:
+                        d = res['v']
+                        if not isinstance(d, int):
+                            what = 'insertion returned %r' % (d,)
+                        elif d in live:
+                            what = 'insertion returned the number %d, which is live (native descriptor %r)' % (d, live[d])
+                        else:
+                            live[d] = next_native
+                        next_native += 1
+                    desc = 'insert'
+                else:
+                    desc = 'close(%d)' % op
+                    before = dict(live)
+                    p = call(table, 'wasiFileDescriptorClose', [op])
+                    if op in live:
+                        if p.ret != 1:
+                            what = 'closing the live descriptor %d fails' % op
+                        else:
+                            del live[op]
+                    elif p.ret == 1:
+                        what = 'closing %d, which is not a live descriptor, succeeds' % op
+                if what is None:
+                    for n in range(0, 12):
+                        got = lookup(table, n)
+                        want = live.get(n)
+                        if want == 'preopen':
+                            ok = got is not None and got < 0
+                        else:
+                            ok = got == want
+                        if not ok:
+                            what = 'descriptor %d now denotes %s, expected %s' % (
+                                n, 'nothing (lookup fails)' if got is None else 'native descriptor %r' % (got,),
+                                'nothing (not live)' if want is None else ('the preopen' if want == 'preopen' else 'native descriptor %r' % (want,)))
+                            break
+                if what:
+                    bad = 'sequence %s on the table [stdin, stdout, stderr, preopen, file]: after step %d (%s) %s' % (
+                        ' ; '.join('insert' if o == 'add' else 'close(%d)' % o for o in seq), step + 1, desc, what)
+                    break
+            if bad:
+                break
+        if bad:
+            break
+    chk.expect(not bad, 'R13.6', 'descriptor-sequences',
+               '%s - a descriptor number must denote one open descriptor from its insertion to its close and nothing afterwards' % bad,
+               'descriptor-table:sequences', detail_ok='%d insert/close sequences of up to %d steps keep every descriptor number unambiguous' % (n_seq, maxlen))
 
 
 def closed_state(chk, tu, rule='R13.2'):
@@ -360,6 +458,8 @@ def run(chk):
     chk.unit(tu)
     check_append_only(chk, tu)
     check_insertion(chk, tu)
+    check_descriptor_sequences(chk, tu)
+    chk.floor('R13.6', 1)
     closed = closed_state(chk, tu)
     check_inert(chk, tu, closed)
     check_prestat(chk, tu)
